@@ -16,6 +16,8 @@ Definitions (on the OUTPUT of format(text, reindent=True, **opts), re-lexed with
 import collections
 import re
 
+import vlib
+
 import sqlparse
 from sqlparse import lexer, tokens as T
 from sqlparse.exceptions import SQLParseError
@@ -124,9 +126,25 @@ def format_pieces(text, opts):
     return list(stack.run(text))
 
 
+# pinned reference copy of utils.SPLIT_REGEX / LINE_MATCH (NOT imported from /repo: a change of the library's regex must
+# not move the reference split points; Gen/SplitRx.v is the regenerated one the Coq model uses)
+REF_SPLIT_REGEX = re.compile(r'''
+(
+ (?:                     # Start of non-capturing group
+  (?:\r\n|\r|\n)      |  # Match any single newline, or
+  [^\r\n'"]+          |  # Match any character series without quotes or
+                         # newlines, or
+  "(?:[^"\\]|\\.)*"   |  # Match double-quoted strings, or
+  '(?:[^'\\]|\\.)*'      # Match single quoted strings
+ )
+)
+''', re.VERBOSE)
+REF_LINE_MATCH = re.compile(r'(\r\n|\r|\n)')
+
+
 def trailing_blank_lines(out, toks, pieces):
     """-> list of (line_no, class) for lines ending in a blank."""
-    from sqlparse.utils import SPLIT_REGEX, LINE_MATCH
+    SPLIT_REGEX, LINE_MATCH = REF_SPLIT_REGEX, REF_LINE_MATCH
     split_points = set()
     base = 0
     for pc in pieces:       # the serializer runs per statement
@@ -199,6 +217,11 @@ def classify(fl, kf=None):
     cls = fl.get('class', '')
     text = ''.join(map(chr, fl.get('input', [])))
     ids = {k['class']: k['id'] for k in (kf or KNOWN)}
+    if kf is not None:
+        # an escaping exception is decided by C07: its open listed findings are known here too
+        for k in vlib.load_known_findings():
+            if k.get('property') == 'C07' and k.get('status') == 'open' and k.get('class'):
+                ids.setdefault(k['class'], k['id'])
     if cls in ('line-ends-in-blank', 'after-bare-CR'):
         # by construction: a blank before a newline (or a bare CR) outside literal/comment tokens survives
         # SerializerUnicode only where SPLIT_REGEX regards the newline as quoted
@@ -302,7 +325,12 @@ def replay(payload):
 
 def rederive_known(k):
     """Re-run the oracle on a known finding's witness; -> the failure if it still reproduces."""
-    for f in oracle_all(k['witness'], k.get('options', {})):
+    w = k['witness']
+    text = w if isinstance(w, str) else (w.get('text') or ''.join(map(chr, w.get('input', []))))
+    opts = k.get('options') or (w.get('options') if isinstance(w, dict) else None) or {}
+    if not any(k.get('class') == kk['class'] for kk in KNOWN):
+        return None
+    for f in oracle_all(text, opts):
         if classify(f, [k]) == k['id']:
             return f
     return None
